@@ -90,6 +90,22 @@ fn chain_rule(rng: &mut Rng) -> RuleAst {
     RuleAst { idents: vec![("I0".into(), id)], cond: Cond::id("I0"), tp: vec![], tn: vec![] }
 }
 
+/// keys with an index on a non-first segment (`u.r[1]`), whose inner names do not occur at the
+/// top level of the rule
+fn indexed_rule(rng: &mut Rng) -> RuleAst {
+    let keys = ["u.r[1]", "u.r[0]", "p.q[2]", "u.s[0].t", "u.v.w[1]", "p.q[0]"];
+    let n = 1 + rng.below(3);
+    let mut es: Entries = vec![];
+    for _ in 0..n {
+        let k = rng.pick_str(&keys);
+        if !es.iter().any(|(x, _)| x.field == k) {
+            es.push((Key::plain(k), RVal::Str(gen::gen_str_pattern(rng, &GenCfg::default()))));
+        }
+    }
+    let id = if rng.chance(40) { Ident::Seq(es.iter().map(|e| vec![e.clone()]).collect()) } else { Ident::Map(es) };
+    RuleAst { idents: vec![("I0".into(), id)], cond: Cond::id("I0"), tp: vec![], tn: vec![] }
+}
+
 const JUNK_KEYS: &[&str] = &["\u{0}", "\u{1}", "\u{2}", "\u{3}", "\u{4}", "\u{5}", "\u{7f}", "", " ", "A", "I0", "condition", "zz9"];
 
 pub fn run(ctx: &Ctx) -> i32 {
@@ -107,6 +123,8 @@ pub fn run(ctx: &Ctx) -> i32 {
             let ast = match rng.below(10) {
                 0..=4 => matrix_rule(&mut rng),
                 5 => chain_rule(&mut rng),
+                7 if n % 3 == 0 => indexed_rule(&mut rng),
+                6 if n % 40 == 7 => gen::wide_matrix_rule(&mut rng),
                 _ => gen::gen_rule(&mut rng, &cfg),
             };
             let Some(text) = ast.to_text() else { continue };
@@ -128,6 +146,20 @@ pub fn run(ctx: &Ctx) -> i32 {
                 // junk: fields no predicate addresses (never a prefix of an addressed path)
                 let mut with_junk = doc.clone();
                 let mut altered = doc.clone();
+                // top-level fields named like the *inner* segments of addressed dotted paths are
+                // unaddressed too (e.g. a top-level `roles` when the rule reads `user.roles[1]`)
+                let inner_names: Vec<String> = top
+                    .iter()
+                    .flat_map(|t| t.split('.').skip(1).map(|seg| seg.split('[').next().unwrap_or(seg).to_string()).collect::<Vec<_>>())
+                    .chain(nested.iter().map(|n| n.split('.').next().unwrap_or(n).split('[').next().unwrap_or(n).to_string()))
+                    .collect();
+                for name in &inner_names {
+                    if rng.chance(60) && !top.iter().any(|t| t == name || t.starts_with(&format!("{}.", name)) || t.starts_with(&format!("{}[", name))) {
+                        let v = DVal::Arr(vec![DVal::s("foo"), gen::junk_scalar(&mut rng), DVal::s("bar")]);
+                        with_junk.set(name, v);
+                        altered.set(name, DVal::Arr(vec![DVal::s("x1"), DVal::s("x1"), DVal::s("x1")]));
+                    }
+                }
                 for _ in 0..1 + rng.below(3) {
                     let k = rng.pick_str(JUNK_KEYS);
                     if top.iter().any(|t| t == k || t.starts_with(&format!("{}.", k)) || t.starts_with(&format!("{}[", k))) {
